@@ -146,6 +146,7 @@ class Ctx:
             launch(i, 0)
         done = []
         site_cache = {}
+        last_check, last_idx, last_move = {}, {}, {}
         restarts = 0
         last_progress = time.time()
         while procs:
@@ -154,8 +155,19 @@ class Ctx:
                 p, cmd, cur, outn, errn, resume = procs[i]
                 rc = p.poll()
                 if rc is None:
-                    if time.time() - last_progress > stall_s:
-                        p.kill()
+                    # a worker is only given up when its case index has not moved for stall_s (blocked, not busy:
+                    # busy loops are ended by the per-case CPU limit)
+                    if time.time() - last_check.get(i, 0) > 15:
+                        last_check[i] = time.time()
+                        try:
+                            idx_now = struct.unpack("<q", open(cur, "rb").read(8))[0]
+                        except Exception:
+                            idx_now = None
+                        if idx_now != last_idx.get(i):
+                            last_idx[i] = idx_now
+                            last_move[i] = time.time()
+                        elif time.time() - last_move.get(i, time.time()) > stall_s:
+                            p.kill()
                     continue
                 last_progress = time.time()
                 del procs[i]
